@@ -109,3 +109,128 @@ def strip_doc(body):
     if body and isinstance(body[0], ast.Expr) and isinstance(body[0].value, ast.Constant) and isinstance(body[0].value.value, str):
         return body[1:]
     return body
+
+
+# ---------------------------------------------------------------------------------- normalisation before matching
+CONSUMERS = {'sum', 'tuple', 'list', 'any', 'all', 'min', 'max', 'sorted', 'set', 'frozenset', 'dict'}
+
+
+class _Canon(ast.NodeTransformer):
+    """Rewrites that never change what an expression computes, so that one pattern covers the spellings:
+    list comprehension consumed by sum()/tuple()/''.join()/... -> generator expression; `X = [ ... for ...]` and
+    `X = list(<gen>)` -> `X = tuple(<gen>)` (only indexed / iterated afterwards by the callers of this pass);
+    `e[::-1]` -> reversed(e); `not bool(e)` -> `not e`; `x != y and x != z` is left alone (handled by the matchers)."""
+
+    def visit_Call(self, node):
+        self.generic_visit(node)
+        f = node.func
+        consumer = (isinstance(f, ast.Name) and f.id in CONSUMERS) or (isinstance(f, ast.Attribute) and f.attr == 'join')
+        if consumer and len(node.args) == 1 and not node.keywords:
+            a = node.args[0]
+            if isinstance(a, ast.ListComp):
+                node.args[0] = ast.copy_location(ast.GeneratorExp(elt=a.elt, generators=a.generators), a)
+            elif isinstance(a, ast.Call) and isinstance(a.func, ast.Name) and a.func.id in ('tuple', 'list') and len(a.args) == 1 \
+                    and isinstance(a.args[0], ast.GeneratorExp) and not (isinstance(f, ast.Name) and f.id in ('tuple', 'list')):
+                node.args[0] = a.args[0]
+        if isinstance(f, ast.Name) and f.id == 'list' and len(node.args) == 1 and isinstance(node.args[0], ast.GeneratorExp) and not node.keywords:
+            node.func = ast.copy_location(ast.Name(id='tuple', ctx=ast.Load()), f)
+        return node
+
+    def visit_ListComp(self, node):
+        self.generic_visit(node)
+        g = ast.copy_location(ast.GeneratorExp(elt=node.elt, generators=node.generators), node)
+        return ast.copy_location(ast.Call(func=ast.Name(id='tuple', ctx=ast.Load()), args=[g], keywords=[]), node)
+
+    def visit_Subscript(self, node):
+        self.generic_visit(node)
+        s = node.slice
+        if isinstance(s, ast.Slice) and s.lower is None and s.upper is None and isinstance(s.step, ast.UnaryOp) and isinstance(s.step.op, ast.USub) \
+                and isinstance(s.step.operand, ast.Constant) and s.step.operand.value == 1 and isinstance(node.ctx, ast.Load):
+            return ast.copy_location(ast.Call(func=ast.Name(id='reversed', ctx=ast.Load()), args=[node.value], keywords=[]), node)
+        return node
+
+    def visit_UnaryOp(self, node):
+        self.generic_visit(node)
+        if isinstance(node.op, ast.Not) and isinstance(node.operand, ast.Call) and isinstance(node.operand.func, ast.Name) \
+                and node.operand.func.id == 'bool' and len(node.operand.args) == 1 and not node.operand.keywords:
+            node.operand = node.operand.args[0]
+        return node
+
+
+def canonical(tree):
+    """A normalised deep copy of the tree (see _Canon)."""
+    import copy
+    t = _Canon().visit(copy.deepcopy(tree))
+    # a ListComp consumed directly was turned into tuple(<gen>) by visit_ListComp before visit_Call saw it: unwrap once more
+    t = _Canon().visit(t)
+    ast.fix_missing_locations(t)
+    return t
+
+
+class _Subst(ast.NodeTransformer):
+    def __init__(self, env):
+        self.env = env
+
+    def visit_Name(self, node):
+        if isinstance(node.ctx, ast.Load) and node.id in self.env:
+            import copy
+            return copy.deepcopy(self.env[node.id])
+        return node
+
+
+def inline_temps(body, keep=()):
+    """Statement list with local temporaries substituted into their uses: `t = e1; c = f(t)` -> `c = f(e1)`.
+    Only for a run of plain `Name = expr` statements in which t is assigned once, is not in `keep`, and is not used after the
+    run; expressions here are pure (table lookups, arithmetic, int(), .index()), so evaluating them at the use is the same."""
+    import copy
+    out = []
+    i = 0
+    body = list(body)
+    while i < len(body):
+        st = body[i]
+        if isinstance(st, ast.Assign) and len(st.targets) == 1 and isinstance(st.targets[0], ast.Name) and st.targets[0].id not in keep:
+            t = st.targets[0].id
+            rest = body[i + 1:]
+            stores = [n for s_ in body for n in ast.walk(s_) if isinstance(n, ast.Name) and n.id == t and isinstance(n.ctx, ast.Store)]
+            uses_in_value = any(isinstance(n, ast.Name) and n.id == t for n in ast.walk(st.value))
+            later_simple = rest and all(isinstance(s_, ast.Assign) and len(s_.targets) == 1 and isinstance(s_.targets[0], ast.Name) for s_ in rest)
+            used_later = any(isinstance(n, ast.Name) and n.id == t for s_ in rest for n in ast.walk(s_))
+            if len(stores) == 1 and not uses_in_value and later_simple and used_later:
+                sub = _Subst({t: st.value})
+                body = body[:i] + [ast.fix_missing_locations(sub.visit(copy.deepcopy(s_))) for s_ in rest]
+                continue
+        out.append(st)
+        i += 1
+    return body
+
+
+def resolve_locals(fn, node, depth=4):
+    """`node` (an expression inside fn) with every local that is assigned exactly once by a plain `name = expr` replaced by
+    that expression, when the names the expression reads are not assigned again afterwards; the first parameter of fn is
+    renamed to `number`.  Lets rules compare what is computed instead of how the intermediate results are named."""
+    import copy
+    stores = {}
+    for n in ast.walk(fn):
+        if isinstance(n, ast.Name) and isinstance(n.ctx, ast.Store):
+            stores.setdefault(n.id, []).append(n)
+    params = [a.arg for a in fn.args.args]
+    single = {}
+    for st in ast.walk(fn):
+        if isinstance(st, ast.Assign) and len(st.targets) == 1 and isinstance(st.targets[0], ast.Name):
+            t = st.targets[0].id
+            if len(stores.get(t, [])) == 1 and t not in params:
+                reads = {x.id for x in ast.walk(st.value) if isinstance(x, ast.Name)}
+                # the names read must not be assigned later than this statement
+                if all(all(s_.lineno <= st.lineno for s_ in stores.get(r, [])) for r in reads) and t not in reads:
+                    single[t] = st.value
+    out = copy.deepcopy(node)
+    for _ in range(depth):
+        names = {x.id for x in ast.walk(out) if isinstance(x, ast.Name) and isinstance(x.ctx, ast.Load)}
+        if not names & set(single):
+            break
+        out = _Subst({k: v for k, v in single.items()}).visit(out)
+    if params and params[0] != 'number':
+        for x in ast.walk(out):
+            if isinstance(x, ast.Name) and x.id == params[0]:
+                x.id = 'number'
+    return ast.fix_missing_locations(out)
